@@ -210,7 +210,7 @@ fn evaluate_against_data_input<'r>(
     mut write_output: &mut Writer,
 ) -> (res: Result<Status>)
     ensures
-        res is Ok ==> res->Ok_0 == overall_spec(*rules, *extra_data, data_files@),
+        res is Ok ==> (res->Ok_0 == Status::FAIL) == some_fail(*rules, *extra_data, data_files@, data_files@.len() as int),
 {
     let mut overall = Status::PASS;
         let reporter = verif_reporter(summary_table);
@@ -219,7 +219,7 @@ fn evaluate_against_data_input<'r>(
         invariant
             it.seq().len() == data_files@.len(),
             forall|i: int| 0 <= i < it.seq().len() ==> *(#[trigger] it.seq()[i]) == data_files@[i],
-            overall == (if some_fail(*rules, *extra_data, data_files@, it.index@ as int) { Status::FAIL } else { Status::PASS }),
+            (overall == Status::FAIL) == some_fail(*rules, *extra_data, data_files@, it.index@ as int),
 {
         let each = match &extra_data {
             Some(data) => data.clone().merge(file.path_value.clone())?,
@@ -250,8 +250,10 @@ fn evaluate_against_data_input<'r>(
                         verif_write_json(write_output, &root_record)?;
         }
 
-        if status == Status::FAIL {
-            overall = Status::FAIL
+        
+        
+        if status != Status::PASS {
+            overall = status
         }
     }
     Ok(overall)
